@@ -146,10 +146,35 @@ def submitted_number(query):
     return None
 
 
+_all_mods = None
+
+
+def own_module_discovery():
+    """Every importable module under stdnum that has a validate function, found with pkgutil by the harness itself
+    (not with the library's get_number_modules(), which is part of what the application relies on)."""
+    global _all_mods
+    if _all_mods is None:
+        import importlib
+        import pkgutil
+        import warnings
+        import stdnum
+        _all_mods = {}
+        with warnings.catch_warnings():
+            warnings.simplefilter('ignore')
+            for _l, modname, _ispkg in pkgutil.walk_packages(stdnum.__path__, 'stdnum.'):
+                try:
+                    m = importlib.import_module(modname)
+                except Exception:  # noqa: B902
+                    continue
+                if hasattr(m, 'validate') and m.__name__ == modname:
+                    _all_mods[modname[len('stdnum.'):]] = m
+    return _all_mods
+
+
 def expected_modules(number):
     """Independent sweep: names of the modules whose is_valid() accepts the number."""
     out = []
-    for name, mod in C.number_modules().items():
+    for name, mod in own_module_discovery().items():
         if C.outcome(mod.is_valid, number) == ('ok', True):
             out.append(name)
     return out
@@ -256,6 +281,10 @@ def req_work(shard, tier, viols, stats, counters, samples):
         nums = C.corpus(name, limit=4 if tier == 'quick' else 20, rng=rng) + C.synth_valid(name, 8 if tier == 'quick' else 60, rng)
         # valid numbers that themselves contain markup-significant characters (e.g. company names with &)
         specials = [v for v in C.corpus(name) if any(ch in v for ch in '<>&"\'')][:4]
+        if hasattr(C.get_module(name), 'split'):
+            # range-boundary numbers of the modules that hyphenate by range tables
+            b = C.synth_boundaries(name, rng, k=1 if tier == 'quick' else 4)
+            specials += rng.sample(b, min(len(b), 60 if tier == 'quick' else 600))
         for v in nums + specials:
             queries.append(('valid:' + name, 'number=' + quote(v)))
         for v in nums[:2]:
